@@ -1,0 +1,57 @@
+// SPDX-FileCopyrightText: 2026 The Pion community <https://pion.ly>
+// SPDX-License-Identifier: MIT
+
+//go:build verif
+
+// Package verifhook provides verification hook points. With the "verif" build
+// tag the functions forward to callbacks installed by the simulator; with no
+// callback installed they return immediately.
+package verifhook
+
+import "sync/atomic"
+
+type (
+	yieldFn func(site string)
+	noteFn  func(site string, v any)
+)
+
+var (
+	yieldHook atomic.Pointer[yieldFn] //nolint:gochecknoglobals
+	noteHook  atomic.Pointer[noteFn]  //nolint:gochecknoglobals
+)
+
+// SetYield installs (or, with nil, removes) the scheduler callback.
+func SetYield(f func(site string)) {
+	if f == nil {
+		yieldHook.Store(nil)
+
+		return
+	}
+	fn := yieldFn(f)
+	yieldHook.Store(&fn)
+}
+
+// SetNote installs (or, with nil, removes) the observer callback.
+func SetNote(f func(site string, v any)) {
+	if f == nil {
+		noteHook.Store(nil)
+
+		return
+	}
+	fn := noteFn(f)
+	noteHook.Store(&fn)
+}
+
+// Yield marks a scheduling point for the deterministic simulator.
+func Yield(site string) {
+	if f := yieldHook.Load(); f != nil {
+		(*f)(site)
+	}
+}
+
+// Note reports an internal ordering event to the deterministic simulator.
+func Note(site string, v any) {
+	if f := noteHook.Load(); f != nil {
+		(*f)(site, v)
+	}
+}
